@@ -54,6 +54,9 @@ func backtrackCases(c *ctx, n int, nIn int, probes bool, inline bool) []*gcase {
 
 func c03(c *ctx) {
 	cases := backtrackCases(c, tierN(c, 240, 5000), 16, false, false)
+	for i, cs := range cases {
+		cs.blankActs = i%2 == 1 // (C03 does not run Execute: the tokens are the observable)
+	}
 	cfgs := []config{{name: "memo", v: vPlain, memo: true}, {name: "nomemo", v: vPlain}, {name: "size1", v: vPlain, memo: true, size: 1}, {name: "size4", v: vPlain, size: 4}, {name: "both", v: vBoth, memo: true}}
 	// more initial capacities, so that for many inputs the token count lands exactly on / one past the capacity
 	for _, sz := range []int{2, 3, 5, 8, 13, 21} {
